@@ -886,3 +886,28 @@ PROPERTIES["C16"] = {
             "value/error/panic and the arguments the probe received (kind, named-ness, value). Non-trivial: >= 1 parameter.",
     "assumptions": ["narrowing float->int conversions outside the target range follow amd64 (CVTTSD2SQ/CVTTSD2SL)"],
 }
+
+
+# ------------------------------------------------------------------ layout (C08)
+def layout_oracle(case, obs, exp):
+    if tag(obs) == "differ":
+        return "violation", "the same program rendered under layout variant %d parses or runs differently: %s vs %s" % (
+            obs[1], sexp.dump(obs[2])[:250], sexp.dump(obs[3])[:250])
+    return runner_oracle("layout", "layout")(case, obs, exp)
+
+
+def layout_known_class(k, case, exp_line, obs_line):
+    return False
+
+
+_mk("layout", runner_projection(flow_view), runner_features(1, 3), layout_oracle)
+PROPERTIES["C08"] = {
+    "families": [("layout", 90, 2500), ("indent", 600, 20000)],
+    "rule": "layout: every generated program is printed under its own random layout and under 10 fixed renderings "
+            "(indent unit 1 / 8 blanks / tabs, CRLF, a blank, whitespace-only or comment line at any indentation before "
+            "EVERY line, maximal parentheses with word operators, random extra parentheses with symbol operators and "
+            "extra blanks inside commands and trailing comments, mixed spellings, one node per reader); every rendering "
+            "must parse to the generated dialogue and give the same trace. indent: the wrapper's token stream vs the "
+            "model on arbitrary indentation. Non-trivial: nesting depth >= 1 and >= 3 Next calls.",
+    "assumptions": [],
+}
